@@ -329,6 +329,28 @@ static ssize_t failing_read(void *c, char *buf, size_t size)
   return (ssize_t)n;
 }
 
+/* a stream whose <at>-th read call is interrupted by a signal (EINTR) before transferring anything: depending on
+ * where that falls inside an fread() the library sees a retry or a short read with the error indicator set */
+struct eintr { const char *data; size_t len, pos, chunk; int calls, at; };
+static ssize_t eintr_read(void *c, char *buf, size_t size)
+{
+  struct eintr *k = c; size_t n = k->len - k->pos;
+  if (++k->calls == k->at) { errno = EINTR; return -1; }
+  if (n > size) n = size;
+  if (k->chunk && n > k->chunk) n = k->chunk;
+  memcpy(buf, k->data + k->pos, n); k->pos += n;
+  return (ssize_t)n;
+}
+/* the same with EAGAIN (a non-blocking descriptor with no data): must fail, not retry for ever */
+static ssize_t eagain_read(void *c, char *buf, size_t size)
+{
+  struct chunked *k = c; size_t n = k->len - k->pos;
+  if (n == 0) { errno = EAGAIN; return -1; }
+  if (n > size) n = size;
+  memcpy(buf, k->data + k->pos, n); k->pos += n;
+  return (ssize_t)n;
+}
+
 /* ---- C1011: descriptor count and LeakSanitizer hook ---- */
 #include <dirent.h>
 extern int __lsan_do_recoverable_leak_check(void) __attribute__((weak));
@@ -654,6 +676,19 @@ int main(int argc, char **argv)
       cookie_io_functions_t io = { failing_read, NULL, NULL, NULL };
       FILE *f = fopencookie(&ck, "r", io);
       if (ck.chunk % 2) setvbuf(f, NULL, _IONBF, 0);
+      { int r; cap_begin(); r = config_read(&cfg, f); cap_end(); do_read(r); } fclose(f); free(s);
+    }
+    else if (OP("read_eintr", 4)) {
+      /* read_eintr <chunk> <at> <data>: the stream delivers all of <data> in pieces of <chunk>; its <at>-th read call is interrupted once */
+      size_t len; char *s = unhex(w[3], &len); struct eintr ck = { s, len, 0, (size_t)atol(w[1]), 0, atoi(w[2]) };
+      cookie_io_functions_t io = { eintr_read, NULL, NULL, NULL };
+      FILE *f = fopencookie(&ck, "r", io);
+      { int r; cap_begin(); r = config_read(&cfg, f); cap_end(); do_read(r); } fclose(f); free(s);
+    }
+    else if (OP("read_stream_eagain", 2)) {
+      size_t len; char *s = unhex(w[1], &len); struct chunked ck = { s, len, 0, 0 };
+      cookie_io_functions_t io = { eagain_read, NULL, NULL, NULL };
+      FILE *f = fopencookie(&ck, "r", io);
       { int r; cap_begin(); r = config_read(&cfg, f); cap_end(); do_read(r); } fclose(f); free(s);
     }
     else if (OP("read_file_ioerr", 2)) {
